@@ -200,7 +200,8 @@ fn node_sweep(run: &Run, acc: &mut Acc, doc: &Value) {
     // resolve the path to it.
     {
         let dc = crate::checks::common::DocCtx::new(doc);
-        for q in ["$[?@]", "$.*[?@]", "$.*.*[?@]", "$[*]", "$.*.*", "$[?@!=1]", "$[?!@.zz]", "$.*[?!@.zz]", "$[*,*]", "$.*[?@==@]"] {
+        let legacy_ok = run.findings.allowed("C09", "legacy_path").map(|s| s.to_string());
+        for q in ["$[?@]", "$.*[?@]", "$.*.*[?@]", "$[*]", "$.*.*", "$[?@!=1]", "$[?!@.zz]", "$.*[?!@.zz]", "$[*,*]", "$.*[?@==@]", "$[1:]", "$[::-1]", "$[*][1:]", "$.*[::2]", "$.*[-1:]", "$[0:2][0:]", "$[-1]", "$.*[-2]"] {
             let ast = crate::model::parse::rfc_parse(q).expect("valid query").0;
             let expected = match dc.model_ids(&ast, crate::model::eval::EDev::default()) {
                 Some(v) => v,
@@ -214,22 +215,47 @@ fn node_sweep(run: &Run, acc: &mut Acc, doc: &Value) {
                 acc.bump("feed_back_result_length_differs_left_to_C01", 1);
                 continue;
             }
-            for ((id, p), want) in res.iter().zip(expected.iter()) {
+            // the paths the legacy rendering (known finding of C03) gives to the same nodes
+            let legacy: Option<Vec<String>> = legacy_ok.as_ref().and_then(|_| {
+                let mut dev = crate::model::eval::EDev::default();
+                dev.legacy_path = true;
+                crate::model::eval::Ctx { root: doc, dev }.eval_query(&ast).ok().map(|n| n.into_iter().map(|x| x.lpath).collect())
+            });
+            for (i, ((id, p), want)) in res.iter().zip(expected.iter()).enumerate() {
                 acc.evals += 1;
                 let wl = dc.am.loc(*want);
-                if *p != normpath(wl) {
-                    acc.bump("reported_paths_not_normalized_left_to_C03", 1);
+                if *p == normpath(wl) {
+                    if id != want {
+                        let got = if *id == crate::imp::FABRICATED { "a value outside the document".to_string() } else { normpath(dc.am.loc(*id)) };
+                        acc.viol(
+                            format!("{} on {} reports the path {} together with the node at {}: feeding the path back reads or updates a different node than the one it was reported for", q, doc, p, got),
+                            json!({"kind": "ref", "class": "reported path does not lead back to the reported node", "doc": doc, "path": p, "query": q}),
+                        );
+                    } else {
+                        acc.nontrivial += 1;
+                    }
                     continue;
                 }
                 if id != want {
-                    let got = if *id == crate::imp::FABRICATED { "a value outside the document".to_string() } else { normpath(dc.am.loc(*id)) };
-                    acc.viol(
-                        format!("{} on {} reports the path {} together with the node at {}: feeding the path back reads or updates a different node than the one it was reported for", q, doc, p, got),
-                        json!({"kind": "ref", "class": "reported path does not lead back to the reported node", "doc": doc, "path": p, "query": q}),
-                    );
-                } else {
-                    acc.nontrivial += 1;
+                    acc.bump("feed_back_node_and_path_differ_left_to_C01", 1);
+                    continue;
                 }
+                // the right node under a path that is not its normalized path: does the path lead back to it?
+                let back = observe_ref(doc, p, &addr_locs);
+                if matches!(&back, Ok(Some(Some(l))) if l == wl) {
+                    acc.bump("non_normalized_paths_that_still_lead_back", 1);
+                    continue;
+                }
+                if let (Some(id), Some(l)) = (&legacy_ok, &legacy) {
+                    if l.len() == res.len() && l[i] == *p {
+                        acc.known(id, || format!("{} on {} reports {} for the node at {}", q, doc, p, normpath(wl)));
+                        continue;
+                    }
+                }
+                acc.viol(
+                    format!("{} on {} reports the path {} for the node at {}; fed back, the path leads to {:?}: the node it was reported for cannot be read or updated through it", q, doc, p, normpath(wl), back.map(|o| o.map(|l| l.map(|l| normpath(&l))))),
+                    json!({"kind": "ref", "class": "reported path does not lead back to the reported node", "doc": doc, "path": p, "query": q}),
+                );
             }
         }
     }
